@@ -386,6 +386,10 @@ class Arith(object):
                 return and_const(x, b)
             if isinstance(a, int) and a >= 0:
                 return and_const(y, a)
+            if isinstance(b, int) and b < 0 and _pow2(-b):
+                return x - x % (-b)           # x & ~(2^k - 1): clear the low k bits (any sign)
+            if isinstance(a, int) and a < 0 and _pow2(-a):
+                return y - y % (-a)
             raise EngineError("symbolic & symbolic on Int (use the bit-vector model)")
         if op == '|':
             r = or_disjoint(x, y)
